@@ -9,6 +9,7 @@ import Driver.Proto3
 import Driver.Stores
 import Driver.Clients
 import Driver.Blocking
+import Driver.Client
 open Driver
 
 structure DSt where
@@ -18,6 +19,7 @@ structure DSt where
   stores : StoresD.St := {}
   clients : ClientsD.St := {}
   blocking : BlockingD.St := {}
+  client : ClientD.St := {}
 
 def dispatch (st : DSt) (line : String) : DSt × String :=
   let toks := (line.trimAscii.toString.splitOn " ").filter (· ≠ "")
@@ -36,6 +38,8 @@ def dispatch (st : DSt) (line : String) : DSt × String :=
       let (p, out) := ClientsD.step st.clients toks; ({ st with clients := p }, out)
     else if t.startsWith "r." || t.startsWith "q." then
       let (p, out) := BlockingD.step st.blocking toks; ({ st with blocking := p }, out)
+    else if t.startsWith "k." then
+      let (p, out) := ClientD.step st.client toks; ({ st with client := p }, out)
     else if t == "ping" then (st, "pong")
     else (st, "bad-op")
 
